@@ -371,6 +371,30 @@ def implies(guards, g: G) -> bool:
     return any(h.same(g) for h in guards)
 
 
+def abs_consequences(ctx, guards):
+    """`c*abs(x) + r <= 0` (c > 0) entails `c*x + r <= 0` and `-c*x + r <= 0`: the guards plus these consequences, so that a range
+    check written with abs() implies the two-sided range"""
+    out = list(guards)
+    for h in guards:
+        if h.kind != 'cmp' or h.key[0] not in ('<', '<=') or h.rat is None:
+            continue
+        d = h.rat
+        if not d.d.is_const() or d.d.const_value() <= 0:
+            continue
+        for a, (f, args) in list(ctx.defs.items()):
+            if f != 'abs':
+                continue
+            mono = ((a, 1),)
+            c = d.n.t.get(mono)
+            if c is None or c <= 0 or any(a in dict(m_) for m_ in d.n.t if m_ != mono):
+                continue
+            rest = Rat(d.n) - Rat.const(c) * Rat.atom(a)
+            x = args[0]
+            out.append(make_cmp(h.key[0], Rat.const(c) * x + rest))
+            out.append(make_cmp(h.key[0], -(Rat.const(c) * x) + rest))
+    return out
+
+
 def static_truth(g: G):
     """True/False if a cmp guard is decidable on constants, else None"""
     if g.kind == 'cmp' and g.rat.is_const():
@@ -2973,6 +2997,18 @@ class SX:
         if name in ('min', 'max') and len(args) == 1 and isinstance(args[0], Seq) and not kwargs:
             nm = f'{name}({args[0].path})'
             return [(st, self.typed_atom(nm, args[0].elem, nm))]
+        if name == 'isclose' and len(args) == 2 and all(isinstance(a, (N, Dyn)) for a in args) and name not in m.functions \
+                and set(kwargs) <= {'rel_tol', 'abs_tol'} and all(isinstance(v, (N, Dyn)) for v in kwargs.values()):
+            # math.isclose(a, b, rel_tol=1e-09, abs_tol=0.0)  ==  |a - b| <= max(rel_tol * max(|a|, |b|), abs_tol)
+            from fractions import Fraction as _Fr
+            rel_t = kwargs['rel_tol'].term if 'rel_tol' in kwargs else Rat.const(_Fr(1, 10 ** 9))
+            abs_t = kwargs['abs_tol'].term if 'abs_tol' in kwargs else Rat.const(0)
+            a_, b_ = args[0].term, args[1].term
+            if rel_t.is_const() and rel_t.const_value() == 0 and abs_t.is_const() and abs_t.const_value() >= 0:
+                bound = abs_t
+            else:
+                bound = self.ctx.call('max', [rel_t * self.ctx.call('max', [self.ctx.call('abs', [a_]), self.ctx.call('abs', [b_])]), abs_t])
+            return [(st, Bsym(make_cmp('<=', self.ctx.call('abs', [a_ - b_]) - bound)))]
         if name == 'clip' and len(args) == 3 and all(isinstance(a, (N, Dyn)) for a in args):
             # numpy.clip(x, lo, hi) = min(max(x, lo), hi) as a number - but a numpy scalar as an object
             inner = self.ctx.call('max', [args[0].term, args[1].term])
